@@ -37,6 +37,9 @@ pub fn exec(func: &str, a: &mut Args) -> String {
             let mut out = Vec::new(); tu::push_filled_circle_indices(bc, n, &mut out); ftris(&out) }
         "reverse_cw_idx" => { let k = a.u(); let mut t: Vec<[u32; 3]> = (0..k).map(|_| [a.u() as u32, a.u() as u32, a.u() as u32]).collect();
             tu::reverse_clockwising(&mut t); ftris(&t) }
+        "push_circle" => { let r = a.f(); let n = a.u() as u32; let dt = a.f(); let y = a.f(); let _full = a.b();
+            let mut out: Vec<P3> = Vec::new(); tu::push_circle(r, n, dt, y, &mut out);
+            let mut s = format!("{}", out.len()); for p in &out { s.push(' '); s.push_str(&d3::fp(p)); } s }
         // index buffers of the discretized primitives (the sizes do not influence the indices)
         "cone_indices" => { let n = a.u() as u32; fidx(&Cone::new(1.0, 0.5).to_trimesh(n)) }
         "cyl_indices" => { let n = a.u() as u32; fidx(&Cylinder::new(1.0, 0.5).to_trimesh(n)) }
@@ -109,6 +112,15 @@ fn gen_topo(r: &mut Rng, thorough: bool, v: &mut Vec<(String, String)>) {
     for _ in 0..(if thorough { 300 } else { 40 }) {
         v.push(("ball_indices".into(), format!("{} {}", 3 + r.below(62), 2 + r.below(63))));
         v.push(("capsule_indices".into(), format!("{} {}", 3 + r.below(62), 2 + r.below(63))));
+    }
+    for it in 0..(if thorough { 1000 } else { 150 }) {
+        let lat = it % 2 == 0;
+        let n = if it < 64 { 1 + it } else { 1 + r.below(64) };
+        let rad = r.pos_extent(lat); let y = if lat { r.lattice(16, 2) } else { r.uniform(-10.0, 10.0) };
+        // dtheta exactly as the discretizers compute it: 2π/n (cone, ball) or 2π·(1/n) (cylinder); or an arbitrary step
+        let two_pi = std::f64::consts::PI * 2.0;
+        let (dt, full) = match r.below(3) { 0 => (two_pi / (n as f64), true), 1 => (two_pi * (1.0 / (n as f64)), true), _ => (r.uniform(-1.0, 1.0), false) };
+        v.push(("push_circle".into(), format!("{} {} {} {} {}", hx(rad), n, hx(dt), hx(y), b(full))));
     }
     for it in 0..(if thorough { 2000 } else { 250 }) {
         let n = if it < 64 { 1 + it } else { 1 + r.below(64) };
